@@ -361,7 +361,9 @@ inductive MKind where
   | fp
   | logical
   | complex                    -- C complex types: the element is one complex number
-  | fcomplex                   -- Fortran COMPLEX*n: the element is one complex number (re, im)
+  | fcomplex                   -- one complex number stored as a (re, im) struct: how SMPI represented the Fortran
+                               -- COMPLEX*n types before they became C complex types (no datatype has this kind any
+                               -- more, see `mpiKind_ne_fcomplex`; kept for the regression theorem of Props.lean)
   | locpair                    -- (value, index) pairs for MINLOC / MAXLOC
   | other
   deriving DecidableEq, Repr, Inhabited
@@ -384,7 +386,7 @@ def mpiKind : String → MKind
   | "MPI_REAL" => .fp | "MPI_REAL4" => .fp | "MPI_REAL8" => .fp | "MPI_REAL16" => .fp
   | "MPI_C_BOOL" => .logical | "MPI_CXX_BOOL" => .logical
   | "MPI_C_FLOAT_COMPLEX" => .complex | "MPI_C_DOUBLE_COMPLEX" => .complex | "MPI_C_LONG_DOUBLE_COMPLEX" => .complex
-  | "MPI_COMPLEX8" => .fcomplex | "MPI_COMPLEX16" => .fcomplex | "MPI_COMPLEX32" => .fcomplex
+  | "MPI_COMPLEX8" => .complex | "MPI_COMPLEX16" => .complex | "MPI_COMPLEX32" => .complex
   | "MPI_FLOAT_INT" => .locpair | "MPI_LONG_INT" => .locpair | "MPI_DOUBLE_INT" => .locpair
   | "MPI_SHORT_INT" => .locpair | "MPI_2INT" => .locpair | "MPI_2FLOAT" => .locpair | "MPI_2DOUBLE" => .locpair
   | "MPI_2LONG" => .locpair | "MPI_LONG_DOUBLE_INT" => .locpair
